@@ -2869,10 +2869,18 @@ class Parameters:
         self_._events  = []
         self_._state_watchers = []
         self_._TRIGGER = True
+        # Values the instance does not hold itself (it follows the class)
+        stored = None if self_.self is None else self_.self._param__private.values
+        followed = [] if stored is None else [name for name in params if name not in stored]
         try:
             self_.update(dict(params, **triggers))
         finally:
             self_._TRIGGER = False
+            # Announcing a value is not setting it: the instance goes on
+            # following the class for what it did not hold before
+            for name in followed:
+                if name in stored and stored[name] is params[name]:
+                    del stored[name]
             # Re-queue what was pending before the trigger, in the order it
             # was raised and without queueing any watcher twice.
             self_._events = events + self_._events
